@@ -28,6 +28,7 @@ CONSTANTS Kinds,       \* alphabet of doctest kinds for this run
 AllKinds == {"warns", "failcompile", "faildirective", "needell", "pass", "failout", "failexc", "skipall", "skippart", "expexc", "comment", "disabled", "disabledfail",
              "bind", "probe", "rebind", "readg", "leaveskip", "leavereq", "reportstyle", "trail", "swapout", "filters",
              "reqsub", "reqpkg",     \* requires a missing submodule of an existing package / requires that package
+             "latenote", "latenotefail",   \* a comment that reads like a force-disable marker on a LATER line: not disabled (passes / fails)
              "bumpfail"}             \* G = G + 1 on the module's global G (1), then wants 3: fails alone - passes if its own earlier binding survived
 
 Disabled(k) == k \in {"disabled", "disabledfail"}
@@ -35,7 +36,7 @@ Disabled(k) == k \in {"disabled", "disabledfail"}
 Solo3(k, e, o) ==
   CASE k = "faildirective" -> "failed"                      \* directives are applied before the skip test
     [] o \in {"skip", "req"} -> "skipped"                   \* +SKIP / +REQUIRES(unmet) as default option: nothing runs
-    [] k \in {"failout", "failexc", "disabledfail", "failcompile", "faildirective", "bumpfail"} -> "failed"   \* the last two fail before any part runs
+    [] k \in {"failout", "failexc", "disabledfail", "failcompile", "faildirective", "bumpfail", "latenotefail"} -> "failed"   \* the last two fail before any part runs
     [] k = "needell" -> (IF o = "noell" THEN "failed" ELSE "passed")   \* want with "..." needs ELLIPSIS
     [] k \in {"skipall", "comment", "reqsub"} -> "skipped"       \* reqsub: its requirement is unmet, nothing runs
     [] k = "trail" -> (IF e = 1 THEN "passed" ELSE "failed")
